@@ -18,7 +18,8 @@ from vf.checks.c05 import inner_fun
 
 PROP = "C15"
 CASES = {"quick": 6000, "thorough": 800000}
-RULE = ("1-2 partitions (d = 1..4), 1-5 leaf points, 0-3 combinations, 1-10 get_block calls (random point / block, repeats), "
+RULE = ("1-2 partitions (d = 1..4), 1-5 leaf points, 0-3 combinations, 1-10 get_block calls (random point / block, repeats), 0-2 "
+        "combinations decomposed without being kept by the caller, "
         "1-2 build-only solves with extra decompositions in between, real coordinate partition of R^n with n >= d.  "
         "Non-trivial = a partition with d >= 2 and >= 2 decomposed points (one of them a combination or decomposed after the "
         "first solve); distinct by case JSON.")
@@ -38,7 +39,10 @@ def _case(draw):
               for _ in range(draw(st.integers(1, 8)))]
     calls2 = [[draw(st.integers(0, nparts - 1)), draw(st.integers(0, total - 1)), draw(st.integers(0, 3))]
               for _ in range(draw(st.integers(0, 4)))]
-    return {"ds": ds, "npts": npts, "combos": combos, "calls1": calls1, "calls2": calls2,
+    # combinations that are decomposed without being kept by the caller (partition.get_block(x - y, k) in a helper)
+    temps = [[draw(st.integers(0, nparts - 1)), draw(st.integers(0, total - 1)), draw(st.integers(0, total - 1)), draw(st.sampled_from([1, -1, 2, 0.5])),
+              draw(st.integers(0, 3)), draw(st.integers(0, 1))] for _ in range(draw(st.sampled_from([0, 0, 1, 2])))]
+    return {"ds": ds, "npts": npts, "combos": combos, "calls1": calls1, "calls2": calls2, "temps": temps,
             "second_solve": draw(st.booleans()), "vseed": draw(st.integers(0, 10 ** 6)), "zero_grad": draw(st.booleans())}
 
 
@@ -47,7 +51,9 @@ def strategy(tier):
 
 
 def fixed_cases(tier):
-    return [{"ds": [2], "npts": 2, "combos": [[0, 1, 2], [0, 1, -1]], "calls1": [[0, 2, 0], [0, 3, 1], [0, 2, 1]],
+    return [{"ds": [2], "npts": 2, "combos": [], "calls1": [[0, 0, 0]], "calls2": [], "temps": [[0, 0, 1, -1, 1, 0]], "second_solve": False,
+             "vseed": 3, "zero_grad": False},
+            {"ds": [2], "npts": 2, "combos": [[0, 1, 2], [0, 1, -1]], "calls1": [[0, 2, 0], [0, 3, 1], [0, 2, 1]],
              "calls2": [[0, 0, 0], [0, 1, 1]], "second_solve": True, "vseed": 1, "zero_grad": True},
             {"ds": [1, 3], "npts": 3, "combos": [], "calls1": [[0, 0, 0], [1, 0, 2], [1, 1, 0], [1, 1, 0]], "calls2": [[1, 2, 1]],
              "second_solve": True, "vseed": 2, "zero_grad": False}]
@@ -112,39 +118,52 @@ def check_case(case, ctx):
     decomposed_after_first = False
     has_combo_decomposed = False
 
-    def do_calls(calls):
+    def track(pi, key, x, allb):
+        # what is remembered of a decomposed point is independent of the object itself: its coefficients over the leaves,
+        # its concrete value and its blocks (a point the caller did not keep must stay decomposed all the same)
+        full = sem.val_point(x, val, dim=n)
+        tracked[pi][key] = ({id(leaf): w for leaf, w in sem.point_coeffs(x).items()}, full, x.get_is_leaf(), allb)
+        for kb, bq in enumerate(allb[:-1]):
+            if bq.get_is_leaf() and not val.has(bq):
+                proj = np.zeros(n)
+                idx = coords[pi][kb]
+                proj[idx] = full[idx]
+                val.set(bq, proj)
+
+    def do_calls(calls, phase=0):
         nonlocal has_combo_decomposed
         with prog.quiet():
             for pi, xi, k in calls:
-                part = parts[pi % len(parts)]
+                pi = pi % len(parts)
+                part = parts[pi]
                 x = X[xi % len(X)]
                 kk = k % part.get_nb_blocks()
-                before = set(id(q) for q in P_.list_of_leaf_points)
                 blk = part.get_block(x, kk)
                 allb = [part.get_block(x, q) for q in range(part.get_nb_blocks())]
-                tracked[pi % len(parts)][id(x)] = (x, allb)
-                # new block leaves receive their concrete coordinate projections
-                if True:
-                    full = sem.val_point(x, val, dim=n)
-                    for kb, bq in enumerate(allb[:-1]):
-                        if bq.get_is_leaf() and not val.has(bq):
-                            proj = np.zeros(n)
-                            idx = coords[pi % len(parts)][kb]
-                            proj[idx] = full[idx]
-                            val.set(bq, proj)
-                key = (pi % len(parts), id(x), kk)
+                track(pi, id(x), x, allb)
+                key = (pi, id(x), kk)
                 if key in seen and seen[key] is not blk:
                     ctx.fail("get_block-not-idempotent", "asking twice for the same block of the same point returns two objects")
                 seen[key] = blk
                 if not x.get_is_leaf():
                     has_combo_decomposed = True
+            for t_index, (pi, i, j, w, k, ph) in enumerate(case.get("temps", [])):
+                if ph != phase:
+                    continue
+                pi = pi % len(parts)
+                part = parts[pi]
+                tmp = X[i % len(X)] + w * X[j % len(X)]
+                allb = [part.get_block(tmp, q) for q in range(part.get_nb_blocks())]
+                track(pi, ("temp", t_index), tmp, allb)
+                has_combo_decomposed = True
+                del tmp
 
     def check_blocks():
         for pi, part in enumerate(parts):
             d = part.get_nb_blocks()
             if len(part.blocks_dict) != len(tracked[pi]):
                 ctx.fail("blocks_dict-size", "blocks_dict has %d entries for %d decomposed points" % (len(part.blocks_dict), len(tracked[pi])))
-            for x, blocks in tracked[pi].values():
+            for want, full, is_leaf, blocks in tracked[pi].values():
                 if len(blocks) != d:
                     ctx.fail("wrong-number-of-blocks", "%d blocks for a partition of %d" % (len(blocks), d))
                     continue
@@ -152,17 +171,15 @@ def check_case(case, ctx):
                 for bq in blocks:
                     for leaf, w in sem.point_coeffs(bq).items():
                         tot[id(leaf)] = tot.get(id(leaf), 0.0) + w
-                want = {id(leaf): w for leaf, w in sem.point_coeffs(x).items()}
                 keys = set(tot) | set(want)
                 if any(abs(tot.get(k_, 0.0) - want.get(k_, 0.0)) > 1e-12 for k_ in keys):
                     ctx.fail("blocks-do-not-sum-to-point", "the blocks obtained for a point do not sum back to that point "
-                             "(d = %d, point is %s)" % (d, "a leaf" if x.get_is_leaf() else "a combination"))
+                             "(d = %d, point is %s)" % (d, "a leaf" if is_leaf else "a combination"))
                 if d == 1:
                     b0 = {id(leaf): w for leaf, w in sem.point_coeffs(blocks[0]).items()}
                     if any(abs(b0.get(k_, 0.0) - want.get(k_, 0.0)) > 1e-12 for k_ in set(b0) | set(want)):
                         ctx.fail("one-block-partition-not-identity", "the single block of a one-block partition is not the point")
                 # concrete: blocks are the coordinate projections
-                full = sem.val_point(x, val, dim=n)
                 for kb, bq in enumerate(blocks):
                     proj = np.zeros(n)
                     idx = coords[pi][kb]
@@ -189,7 +206,7 @@ def check_case(case, ctx):
                 if c.equality_or_inequality != "equality":
                     ctx.fail("partition-constraint-not-equality", "a partition constraint is an inequality")
             got = [sem.functional(c.expression) for c in mine]
-            ref = reference_relations(part, [b for (_x, b) in tracked[pi].values()])
+            ref = reference_relations(part, [t[3] for t in tracked[pi].values()])
             ra, rb, rab = span_equal(got, ref)
             if rab > ra:
                 ctx.fail("orthogonality-relation-missing:%s" % tag,
@@ -215,7 +232,7 @@ def check_case(case, ctx):
     s1 = solve_and_check("first-solve")
     if case.get("second_solve"):
         n_before = [len(t) for t in tracked]
-        do_calls(case["calls2"])
+        do_calls(case["calls2"], phase=1)
         decomposed_after_first = any(len(t) > nb for t, nb in zip(tracked, n_before))
         check_blocks()
         s2 = solve_and_check("second-solve")
